@@ -65,7 +65,7 @@ TScn ==
     (* set_m_error accepts the vectors (ranges span the calibration band)   *)
     /\ Explain(o.wsetup = 1, <<l, "Scn", "wsetup", 1>>)
     /\ Explain(o.mset = 0, <<l, "Scn", "mset", 0>>)
-    /\ CASE k = "exact" ->
+    /\ CASE k \in {"exact", "det"} ->
               /\ Explain(o.refsetup = 1 /\ o.ref = 0, <<l, "Scn", "ref", 0>>)
               /\ Explain(o.wret = 0 /\ o.wcbn = 0, <<l, "Scn", "wret", 0>>)
               /\ Explain(o.same = 1, <<l, "Scn", "sameAsReference", 1>>)
